@@ -286,7 +286,54 @@ ETYPES = {
     "empty": ("E_empty", "org.example.Empty", []),
     "shadow": ("E_shadow", "org.varlink.service",
                [("PermissionDenied", None), ("Custom", [("why", "str")])]),
+    # fields declared with raw identifiers (r#type, r#match + rename, r#ref, r#in + rename): the names
+    # here are the WIRE names the property prescribes (un-rawed); C05 only
+    "raw": ("E_raw", "org.example.Raw",
+            [("Typed", [("type", "str"), ("count", "u32")]), ("Matched", [("match", "i32"), ("ref", "obstr")]),
+             ("Loop", None), ("Renamed", [("in", "bool")])]),
 }
+# what the derive uses as of fe0c0b5 for the un-renamed raw-identifier fields (open finding)
+RAW_ASIS = {"type": "r#type", "ref": "r#ref"}
+_RAW_UNRAWED = None
+
+
+def raw_ident_unrawed():
+    """Read off the tree under test whether the ReplyError derive un-raws field identifiers
+    (work/c05-rawident-fix.diff: `unraw()` in FieldInfo::get_serialized_name)."""
+    global _RAW_UNRAWED
+    if _RAW_UNRAWED is None:
+        path = os.path.join(REPO, "zlink-macros", "src", "reply_error.rs")
+        src = open(path).read()
+        m = re.search(r"fn get_serialized_name\b.*?\n    }\n", src, re.S)
+        if m and "unraw()" in m.group(0):
+            _RAW_UNRAWED = (True, "get_serialized_name un-raws the field identifier")
+        elif m:
+            _RAW_UNRAWED = (False, "get_serialized_name uses the identifier as written (r#type stays \"r#type\")")
+        else:
+            _RAW_UNRAWED = (False, "get_serialized_name not found in %s" % path)
+    return _RAW_UNRAWED
+
+
+def model_eshape(ename):
+    """Coq shape of the error type as the tree under test implements it."""
+    if ename == "raw" and not raw_ident_unrawed()[0]:
+        return "E_raw_asis"
+    return ETYPES[ename][0]
+
+
+def asis_names(tree):
+    """The same frame with the un-renamed raw-identifier fields spelled as the derive spells them now."""
+    if isinstance(tree, Obj):
+        return Obj([(k, Obj([(RAW_ASIS.get(n, n), v) for n, v in x.ms]) if k == "parameters" and isinstance(x, Obj) else x)
+                    for k, x in tree.ms])
+    return tree
+
+
+# member names that are NOT the flags `oneway` / `more` / `upgrade`: case variants, prefixes, suffixes,
+# one character off, Unicode look-alikes
+NEAR_FLAG_NAMES = ["More", "MORE", "mOre", "Oneway", "ONEWAY", "oneWay", "Upgrade", "UPGRADE", "upGrade",
+                   "more_", "_more", "more2", "oneway2", "one_way", "upgrad", "upgradee", "mor", "moree", "mare",
+                   "onewey", "upgrode", "m\u043ere", "\uff4dore", "on\u0435way", "upgrad\u0435", "more ", " oneway"]
 VS = ("vs_error_shape", "org.varlink.service",
       [("InterfaceNotFound", [("interface", "str")]), ("MethodNotFound", [("method", "str")]),
        ("MethodNotImplemented", [("method", "str")]), ("InvalidParameter", [("parameter", "str")]),
@@ -298,6 +345,7 @@ MTYPES = {
     "methb": ("M_methb", [("org.example.M.Put", [("name", "bstr"), ("value", "i64")]),
                           ("org.example.M.Ping", None)]),
     "meths": ("M_meths", None),
+    "methn": ("M_methn", None),
     "value": ("M_value", None),
     "vsmethod": ("M_vsmethod", [("org.varlink.service.GetInfo", None),
                                 ("org.varlink.service.GetInterfaceDescription", [("interface", "bstr")])]),
@@ -324,6 +372,8 @@ def good_value(rng, ty):
         return rng.choice([None, 9])
     if ty == "obool":
         return rng.choice([None, True, False])
+    if ty == "bool":
+        return rng.choice([True, False])
     if ty == "obstr":
         return rng.choice([None, "data"])
     if ty == "ostr":
@@ -342,7 +392,7 @@ def bad_value(rng, ty):
         return rng.choice(["1", 9223372036854775808, Flt("0.5"), None, True])
     if ty in ("u32", "ou32"):
         return rng.choice([-1, 4294967296, "5", Flt("2.5")])
-    if ty == "obool":
+    if ty in ("obool", "bool"):
         return rng.choice([0, "true"])
     raise ValueError(ty)
 
@@ -542,9 +592,10 @@ def render_rcase(c, r):
 
     def val(x):
         return None if x is None else x["v"]
-    return ("{| rc_object_only := %s; rc_e := %s; rc_p := %s; rc_frame := %s; rc_recv := %s; rc_call := %s; "
+    return ("{| rc_object_only := %s; rc_e := %s; rc_espec := %s; rc_p := %s; rc_frame := %s; rc_recv := %s; rc_call := %s; "
             "rc_dvs := %s; rc_derr := %s; rc_drep := %s; rc_evs := %s; rc_eerr := %s; rc_erep := %s |}") % (
-        coq_bool(receive_reply_object_only()[0]), ETYPES[c["e"]][0], PTYPES[c["p"]], coq_jval(c["tree"]),
+        coq_bool(receive_reply_object_only()[0]), model_eshape(c["e"]), ETYPES[c["e"]][0], PTYPES[c["p"]],
+        coq_jval(c["tree"]),
         coq_outcome(r["recv"]), coq_outcome(r["call"]),
         coq_opt(val(r["d_vs"]), coq_rval), coq_opt(val(r["d_err"]), coq_rval), coq_opt(val(r["d_rep"]), coq_rval),
         coq_opt(enc(r["d_vs"]), coq_jval), coq_opt(enc(r["d_err"]), coq_jval), coq_opt(enc(r["d_rep"]), coq_jval))
